@@ -104,7 +104,11 @@ func (b proxyBuilder) out(ft reflect.Type, results []interface{}, err error) (ou
 		m = n
 	}
 	for i := 0; i < m; i++ {
-		out[i] = reflect.ValueOf(results[i])
+		if results[i] == nil {
+			out[i] = reflect.Zero(ft.Out(i))
+		} else {
+			out[i] = reflect.ValueOf(results[i])
+		}
 	}
 	for i := m; i < n; i++ {
 		out[i] = reflect.Zero(ft.Out(i))
